@@ -254,6 +254,12 @@ def local_evidence(rows, weighted, vec, labels):
     return bad
 
 
+def drop(ctx, reason):
+    ctx.margin_dropped += 1
+    d = ctx.extra.setdefault('dropped_by_reason', {})
+    d[reason] = d.get(reason, 0) + 1
+
+
 def close(a, b, tol=TOL):
     return abs(float(a) - float(b)) <= tol * max(1.0, abs(float(a)), abs(float(b)))
 
@@ -280,6 +286,7 @@ def run(ctx, scratch):
     with Impl(scratch) as impl:
         run_witnesses(ctx, impl)
         run_propagation(ctx, impl, rng, nmax, 420 * scale)
+        run_termination(ctx, impl, rng, 260 * scale)
         run_diffusion(ctx, impl, rng, nmax, 220 * scale)
         run_nn(ctx, impl, rng, nmax, 200 * scale)
         run_pagerank(ctx, impl, rng, nmax, 70 * scale)
@@ -476,7 +483,7 @@ def run_propagation(ctx, impl, rng, nmax, count):
                               observed=dict(labels=labels, nodes=bad[:4]), **f)
         # ---- correspondence with the model
         if mv[0] == 'POutOfFuel':
-            ctx.margin_dropped += 1
+            drop(ctx, 'propagation: model out of fuel, implementation returned')
             continue
         if mv[0] != 'POk':
             ctx.violation('Propagation', 'model reports an out-of-bounds access where the implementation returned', case=case,
@@ -497,6 +504,66 @@ def run_propagation(ctx, impl, rng, nmax, count):
         if i % 97 == 0:
             ctx.sample(dict(kind='Propagation', args=case, impl_labels=labels, model_labels=list(ml), sweeps=o['sweeps'],
                             stopped_unchanged=o['last_unchanged']))
+
+
+# ----------------------------------------------------------------------------------------------------------
+def run_termination(ctx, impl, rng, count):
+    """Default n_iter (-1: sweep until nothing changes) on small weighted digraphs: the model (fuel 150) says which runs
+    cycle; a few of those are confirmed on the implementation with a time-out, the others are run normally."""
+    FUEL = 150
+    cases = []
+    for _ in range(count):
+        g = make_graph(rng, 8, kind='directed')
+        n = g['shape'][0]
+        if n < 4:
+            continue
+        vec = [-1] * n
+        a, b = rng.sample(range(n), 2)
+        vec[a], vec[b] = 0, 1
+        kw, form = seed_forms(rng, g, vec)
+        cases.append(dict(fam='default_n_iter_digraph', g=g, vec=vec, kw=kw, form=form, weighted=True, node_order=None, n_iter=None))
+    exprs = [prop_expr(c, adjacency_rows(c['g']), [], FUEL) for c in cases]
+    model = coq_eval('c13t', IMPORTS, exprs, prelude=PRELUDE)
+    cyc = [i for i, mv in enumerate(model) if mv[0] == 'POutOfFuel']
+    confirm = set(cyc[:2])
+    run_ok = [i for i, mv in enumerate(model) if mv[0] != 'POutOfFuel']
+    run_ok = set(rng.sample(run_ok, min(len(run_ok), 60)))
+    ctx.extra['default_n_iter_digraphs'] = dict(cases=len(cases), model_cycles=len(cyc), confirmed_on_impl=len(confirm))
+    for i, c in enumerate(cases):
+        args = prop_args(c)
+        f = dict(node_order='none', weighted=True, n_iter_default=True, seed_vector_all_distinct=len(set(c['vec'])) == len(c['vec']),
+                 form=c['form'], family=c['fam'])
+        if i in cyc and i not in confirm:
+            ctx.count('Propagation:predicted_nontermination_not_run', ('prop', args), True)
+            continue
+        if i not in confirm and i not in run_ok:
+            continue
+        r = impl.call('c13', 'propagation', args, timeout=8 if i in confirm else 20)
+        ctx.traces += 1
+        ctx.count('Propagation:default_n_iter_digraph', ('prop', args), True)
+        if 'hang' in r:
+            ctx.violation('propagation_hang', 'Propagation.fit with the default n_iter does not return (the sweeps cycle between '
+                          'labelings; model: out of fuel after %d sweeps)' % FUEL, case=args, kind='hang',
+                          model_out_of_fuel=model[i][0] == 'POutOfFuel', **f)
+            continue
+        if 'ok' not in r:
+            ctx.violation('Propagation', 'fit raised / crashed on a valid input', case=args, kind='error',
+                          observed={k: r[k] for k in r if k != 'tb'}, **f)
+            continue
+        o = r['ok']
+        labels = all_labels(o, c['g'])
+        check_common(ctx, 'Propagation', c['g'], c['vec'], o, args, f)
+        bad = local_evidence(adjacency_rows(c['g']), True, c['vec'], labels)
+        if bad:
+            ctx.violation('Propagation', 'stopped because a sweep changed nothing, but a non-seed node with a labelled neighbour '
+                          'does not hold a label of maximal total vote', case=args, kind='not_local_max',
+                          observed=dict(labels=labels, nodes=bad[:4]), **f)
+        mv = model[i]
+        if mv[0] == 'POutOfFuel':
+            drop(ctx, 'propagation: model out of fuel, implementation returned')
+        elif mv[0] != 'POk' or list(mv[1][0]) != labels:
+            ctx.violation('Propagation', 'labels differ from the model of the current source', case=args, kind='model_diff',
+                          expected=mv, observed=labels, **f)
 
 
 # ----------------------------------------------------------------------------------------------------------
@@ -556,7 +623,7 @@ def run_diffusion(ctx, impl, rng, nmax, count):
                 for v in range(len(vec)):
                     top = sorted(probs[v], reverse=True)
                     if len(top) >= 2 and top[0] - top[1] < 1e-6 and labels[v] != -1:
-                        ctx.margin_dropped += 1
+                        drop(ctx, 'diffusion: arg-max margin < 1e-6 (node)')
                         continue
                     if ml[v] != labels[v]:
                         ctx.violation('DiffusionClassifier', 'label differs from the model', case=args, kind='model_diff',
@@ -650,7 +717,7 @@ def run_pagerank(ctx, impl, rng, nmax, count):
                               case=args, kind='seed_vector', expected=vec, observed=o['seeds_vector'], **f)
                 continue
             if any(x < 0 for row in sc for x in row):
-                ctx.margin_dropped += 1      # contract of the ranking oracle (non-negative scores) not met: outside the theorem
+                drop(ctx, 'pagerank: ranking oracle returned a negative score (outside its contract)')
                 continue
             cases.append((args, g, vec, o, f))
             exprs.append('run_rank %s %s' % (clist(vec, cz), clist(sc, lambda row: clist(row, cq))))
@@ -672,7 +739,7 @@ def run_pagerank(ctx, impl, rng, nmax, count):
         for v in range(len(vec)):
             top = sorted((float(x) for x in dense[v]), reverse=True)
             if len(top) >= 2 and top[0] - top[1] < 1e-9:
-                ctx.margin_dropped += 1
+                drop(ctx, 'pagerank: arg-max margin < 1e-9 (node)')
                 continue
             if ml[v] != labels[v]:
                 ctx.violation('PageRankClassifier', 'label differs from the model (arg-max of the scores)', case=args,
